@@ -97,6 +97,29 @@ Theorem C03_refinement_all : forall dall ro sm f sel pairs,
 Proof. exact indexed_all_refines_thm. Qed.
 Print Assumptions C03_refinement_all.
 
+(* the log times of the messages handed to the caller by the byte-level read are those of the
+   abstract run (load_chunk_i and yield are opened for this; only loader_ok is assumed) *)
+Theorem C03_refinement_logtimes : forall dall ro sm f sel pairs,
+  loader_ok dall ro sm f sel pairs ->
+  forall fuel n cis cks ms st,
+  Forall2 (ci_match pairs) cis cks ->
+  indexed_all dall fuel n ro sm f
+    {| i_cis := ci_sort (ro_order ro) cis; i_queue := []; i_slots := []; i_reccap := 0; i_allocs := [] |}
+    [] (O, O) = Ok (ms, EEOF, st) ->
+  exists out, a_read sel (ro_order ro) fuel n cks = Some (out, st) /\ map log_of ms = map am_ts out.
+Proof. exact indexed_read_refines_thm. Qed.
+Print Assumptions C03_refinement_logtimes.
+
+(* end to end: d = true is LogTimeOrder (non-decreasing), d = false ReverseLogTimeOrder *)
+Theorem C03_indexed_time : forall dall ro sm f sel pairs d fuel n cis cks ms st,
+  loader_ok dall ro sm f sel pairs -> ro_order ro = order_of d ->
+  Forall2 (ci_match pairs) cis cks -> chunks_wf cks ->
+  indexed_all dall fuel n ro sm f (i_init ro cis) [] (O, O) = Ok (ms, EEOF, st) ->
+  StronglySorted (fun a b => led d a b) (map log_of ms) /\
+  Permutation (map log_of ms) (map am_ts (filter sel (all_msgs cks))).
+Proof. exact C03_indexed_time_thm. Qed.
+Print Assumptions C03_indexed_time.
+
 (* ----- non-vacuity ----- *)
 (* ex_cks: three chunks (summary order B, C, A; file order B, C, A by offset 100, 200, 300; time
    order A, B, C), overlapping ranges [10,20] [15,30] [25,40], ties at 15, 20 and 25 *)
@@ -118,3 +141,22 @@ Example C03_ex_summary_order :
   Permutation ex_cks [exA; exB; exC] /\
   a_read sel_all LogTimeOrder 4 12 [exA; exB; exC] = a_read sel_all LogTimeOrder 4 12 ex_cks.
 Proof. exact ex_summary_order. Qed.
+(* a byte-level file (one uncompressed chunk, three messages, one on an unselected channel) for
+   which the loader hypothesis is proved and the read is evaluated *)
+Example C03_ex_loader_ok : loader_ok x_dall x_ro x_sm x_file x_sel x_pairs.
+Proof. exact x_loader_ok. Qed.
+Example C03_ex_matches :
+  Forall2 (ci_match x_pairs) [x_ci] [x_ac] /\ st_match x_pairs x_s0 (a_init (ac_sort LogTimeOrder [x_ac])).
+Proof. exact x_matches. Qed.
+Example C03_ex_indexed_all :
+  match indexed_all x_dall 4 4 x_ro x_sm x_file x_s0 [] (O, O) with
+  | Ok (ms, e, st) => Some (map log_of ms, e, st)
+  | _ => None
+  end = Some ([15; 20], EEOF, (1, 1)%nat) /\
+  uids (a_read x_sel LogTimeOrder 4 4 [x_ac]) = Some ([2; 0]%nat, (1, 1)%nat).
+Proof. exact x_indexed_all. Qed.
+Example C03_ex_end_to_end_hyps :
+  loader_ok x_dall x_ro x_sm x_file x_sel x_pairs /\ ro_order x_ro = order_of true /\
+  Forall2 (ci_match x_pairs) [x_ci] [x_ac] /\ chunks_wf [x_ac] /\ ranges_ok [x_ac] /\ NoDup (map ac_off [x_ac]) /\
+  exists ms st, indexed_all x_dall 4 4 x_ro x_sm x_file (i_init x_ro [x_ci]) [] (O, O) = Ok (ms, EEOF, st).
+Proof. exact x_end_to_end_hyps. Qed.
